@@ -240,7 +240,7 @@ let matcher_line line =
     Buffer.add_string out ("w:" ^ z_to_string (M.mgd_window_size !d));
     let stop = ref false in
     List.iter (fun op -> if not !stop then begin
-      let c = op.[0] in
+      let c = if op.[0] = 'C' then 'c' else op.[0] in
       let emit s = Buffer.add_char out ' '; Buffer.add_string out s in
       let panic () = emit (String.make 1 c ^ ":panic"); stop := true in
       if c = 'c' then (match M.commit_space !d (unhex (after op 1)) with
